@@ -108,9 +108,11 @@ class FIXContainer:
         if not (tag_str.isascii() and tag_str.isdigit()):
             # int() is too tolerant: ' 58', '+58', '5_8', non ASCII digits
             raise FIXMessageError("Tags must be only integers")
-        if tag_str[0] == "0" and len(tag_str) < 19:
+        if tag_str[0] == "0":
             # the same tag written with leading zeros
-            tag_str = str(int(tag_str))
+            tag_str = tag_str.lstrip("0")
+            if not tag_str:
+                raise FIXMessageError("Tags must be positive integers")
         return tag_str
 
     def get(self, tag: str | int | FTag, default=TagNotFoundError) -> str:
